@@ -3,13 +3,21 @@
 //! A case is a *schedule*: queue count + a sequence of frames fed to one real `Defragmenter` and to the
 //! Lean model (`drv_frag`).  Compared per frame: `pkt <stream> <bytes>` | `none` | `err <label>` | `panic`.
 //! Spec oracle (independent of the model), applied to the implementation's output:
-//!  * integrity: every byte of an emitted packet was received in a frame with the same stream offset at
-//!    that position (payload bytes are random, so stale slot content is detected);
+//!  * integrity: every byte of a packet emitted from a reassembly queue was received, at that position, in a
+//!    frame with the same stream offset fed *after the previous emission of that stream offset from a queue*
+//!    (payload bytes are random, so stale slot content is detected; a re-emission cannot reuse old frames);
+//!    a packet emitted on the single-frame fast path is exactly the payload of that frame;
 //!  * honest streams: an emitted packet is byte-identical to the packet sent under that stream offset;
-//!    a multi-frame packet is emitted at most once per slot lifetime; in clean streams (≤ Q packets in
-//!    flight, nothing dropped) every packet is emitted;
+//!  * at most once: a second emission of an honest packet is a known finding only in its two specific
+//!    classes (single-frame duplicate; whole packet duplicated *and* a frame of another packet fed in
+//!    between, which can have reclaimed the slot); anything else is a violation;
+//!  * liveness, per packet and under any duplication / interleaving / loss of other packets' frames: let
+//!    `t0` be the first and `t1` the completing frame of a multi-frame packet S.  If the streams that can hold
+//!    a slot up to `t1` (every other stream offset with a multi-frame frame fed up to `t1`, except those that
+//!    were emitted before `t0` and silent since) number at most Q-1, no busy slot can have been evicted, so S
+//!    must be emitted exactly at `t1`.  Every honest single-frame packet must be emitted on arrival;
 //!  * no panic.
-use std::collections::HashMap;
+use std::collections::{HashMap, HashSet};
 
 use anapaya_edge_tun::fragmenting::{
     DefragmentInsertError, Defragmenter, Fragmenter, FragmenterSendError, MAX_MTU, MAX_PACKET_SIZE, MIN_MTU,
@@ -27,8 +35,8 @@ struct Schedule {
     frames: Vec<Vec<u8>>,
     /// honest packets by stream offset (empty for hostile schedules)
     sent: HashMap<u64, Vec<u8>>,
-    /// clean = honest, ≤ Q in flight, nothing dropped: every packet must be emitted
-    clean: bool,
+    /// frame offsets of every honest packet, as produced by the Fragmenter
+    sent_offs: HashMap<u64, Vec<usize>>,
 }
 
 fn mk_frame(so: u64, fo: u16, flags: u16, payload: &[u8], reserved: u32) -> Vec<u8> {
@@ -39,6 +47,23 @@ fn mk_frame(so: u64, fo: u16, flags: u16, payload: &[u8], reserved: u32) -> Vec<
     v.extend_from_slice(&reserved.to_be_bytes());
     v.extend_from_slice(payload);
     v
+}
+
+/// (stream offset, frame offset, LAST) of a frame that has a complete header
+fn hd(f: &[u8]) -> Option<(u64, usize, bool)> {
+    if f.len() < HDR {
+        return None;
+    }
+    Some((
+        u64::from_be_bytes(f[0..8].try_into().unwrap()),
+        u16::from_be_bytes(f[8..10].try_into().unwrap()) as usize,
+        f[10] & 0x80 != 0,
+    ))
+}
+
+/// frame takes the stateless single-frame fast path of `recv_fallible`
+fn is_fast(f: &[u8]) -> bool {
+    matches!(hd(f), Some((_, 0, true)))
 }
 
 fn impl_out(r: Result<Result<Option<(u64, Vec<u8>)>, DefragmentInsertError>, String>) -> String {
@@ -67,11 +92,15 @@ struct Outcome {
     spec: Vec<(String, String)>,
     labels: Vec<String>,
     emitted_from_queue: usize,
+    /// number of packets the liveness oracle demanded (premise discharged by the counting argument)
+    liveness_claims: usize,
+    /// … of which with a duplicate of one of its own frames or a frame of another stream before completion
+    liveness_claims_disturbed: usize,
 }
 
 /// run one schedule against the implementation and (optionally) the model, apply the spec oracle
 fn run_schedule(s: &Schedule, lean: &mut Option<&mut Lean>) -> Outcome {
-    let mut out = Outcome { disagree: None, spec: vec![], labels: vec![], emitted_from_queue: 0 };
+    let mut out = Outcome { disagree: None, spec: vec![], labels: vec![], emitted_from_queue: 0, liveness_claims: 0, liveness_claims_disturbed: 0 };
     let mut d = match catch(|| Defragmenter::new_unobserved(s.queues)) {
         Ok(d) => d,
         Err(m) => {
@@ -82,37 +111,44 @@ fn run_schedule(s: &Schedule, lean: &mut Option<&mut Lean>) -> Outcome {
     if let Some(l) = lean.as_mut() {
         l.ask(&format!("new {}", s.queues));
     }
-    // frames fed so far, by stream offset: (frame_offset, payload)
-    let mut fed: HashMap<u64, Vec<(usize, &[u8])>> = HashMap::new();
-    let mut emitted: HashMap<u64, usize> = HashMap::new();
+    let honest = !s.sent.is_empty();
+    // frames fed so far, by stream offset: (index in the schedule, frame_offset, payload)
+    let mut fed: HashMap<u64, Vec<(usize, usize, &[u8])>> = HashMap::new();
+    // indices at which a stream offset was emitted from a reassembly queue / on the fast path
+    let mut q_emits: HashMap<u64, Vec<usize>> = HashMap::new();
+    let mut fast_emits: HashMap<u64, usize> = HashMap::new();
     for (i, f) in s.frames.iter().enumerate() {
         let r = catch(|| d.recv(f).map(|o| o.map(|p| (p.stream_offset, p.payload.to_vec()))));
-        if f.len() >= HDR {
-            let so = u64::from_be_bytes(f[0..8].try_into().unwrap());
-            let fo = u16::from_be_bytes(f[8..10].try_into().unwrap()) as usize;
-            fed.entry(so).or_default().push((fo, &f[HDR..]));
+        if let Some((so, fo, _)) = hd(f) {
+            fed.entry(so).or_default().push((i, fo, &f[HDR..]));
         }
+        let single = is_fast(f);
         if let Ok(Ok(Some((so, p)))) = &r {
-            let single = f.len() >= HDR && (f[10] & 0x80) != 0 && f[8] == 0 && f[9] == 0;
-            if !single {
-                out.emitted_from_queue += 1;
-            }
             // integrity
-            let frames = fed.get(so).cloned().unwrap_or_default();
-            let mut bad = None;
-            for (pos, b) in p.iter().enumerate() {
-                if !frames.iter().any(|(fo, pl)| *fo <= pos && pos < fo + pl.len() && pl[pos - fo] == *b) {
-                    bad = Some(pos);
-                    break;
+            if single {
+                if hd(f).map(|h| h.0) != Some(*so) || &f[HDR..] != &p[..] {
+                    out.spec.push(("C17:integrity".into(), format!("single-frame packet emitted for frame #{i} is not that frame's payload / stream offset")));
+                }
+            } else {
+                out.emitted_from_queue += 1;
+                let since = q_emits.get(so).and_then(|v| v.last().copied());
+                let frames: Vec<&(usize, usize, &[u8])> =
+                    fed.get(so).map(|v| v.iter().filter(|(k, _, _)| since.map_or(true, |e| *k > e)).collect()).unwrap_or_default();
+                let mut bad = None;
+                for (pos, b) in p.iter().enumerate() {
+                    if !frames.iter().any(|(_, fo, pl)| *fo <= pos && pos < fo + pl.len() && pl[pos - fo] == *b) {
+                        bad = Some(pos);
+                        break;
+                    }
+                }
+                if let Some(pos) = bad {
+                    out.spec.push((
+                        "C17:integrity".into(),
+                        format!("emitted packet stream_offset={so} len={} has byte at {pos} that was never received in a frame of that packet (frame #{i})", p.len()),
+                    ));
                 }
             }
-            if let Some(pos) = bad {
-                out.spec.push((
-                    "C17:integrity".into(),
-                    format!("emitted packet stream_offset={so} len={} has byte at {pos} that was never received in a frame of that packet (frame #{i})", p.len()),
-                ));
-            }
-            if !s.sent.is_empty() {
+            if honest {
                 match s.sent.get(so) {
                     Some(orig) if orig == p => {}
                     Some(orig) => out.spec.push((
@@ -121,26 +157,36 @@ fn run_schedule(s: &Schedule, lean: &mut Option<&mut Lean>) -> Outcome {
                     )),
                     None => out.spec.push(("C17:honest-identical".into(), format!("emitted unknown stream offset {so}"))),
                 }
-                let n = emitted.entry(*so).or_insert(0);
-                *n += 1;
-                if *n > 1 {
-                    // was the whole packet delivered (at least) twice? then the second emission is the
-                    // consequence of a network-duplicated packet whose slot had been reclaimed in between
-                    let mut per_off: HashMap<usize, usize> = HashMap::new();
-                    for (fo, _) in &frames {
-                        *per_off.entry(*fo).or_insert(0) += 1;
+                // at most once
+                if single {
+                    let n = fast_emits.entry(*so).or_insert(0);
+                    *n += 1;
+                    if *n > 1 {
+                        out.spec.push(("C17:at-most-once:single-frame-duplicate".into(), format!("single-frame packet stream_offset={so} emitted {} times (frame #{i})", *n)));
                     }
-                    let whole_dup = per_off.values().all(|c| *c >= *n);
-                    let key = if single {
-                        "C17:at-most-once:single-frame-duplicate"
-                    } else if whole_dup {
+                } else if let Some(prev) = q_emits.get(so).and_then(|v| v.last().copied()) {
+                    let n = q_emits[so].len() + 1;
+                    // was the whole packet delivered again after the previous emission, and was a frame of
+                    // another multi-frame packet fed in between (only such a frame can reclaim the idle slot)?
+                    let offs: HashSet<usize> = s.sent_offs.get(so).map(|v| v.iter().copied().collect()).unwrap_or_default();
+                    let again: HashSet<usize> = fed[so].iter().filter(|(k, _, _)| *k > prev).map(|(_, fo, _)| *fo).collect();
+                    let whole_dup = !offs.is_empty() && offs.is_subset(&again);
+                    let foreign_between = s.frames[prev + 1..i].iter().any(|g| !is_fast(g) && hd(g).map_or(false, |h| h.0 != *so));
+                    let key = if whole_dup && foreign_between {
                         "C17:at-most-once:whole-packet-duplicated"
+                    } else if whole_dup {
+                        "C17:at-most-once:slot-not-reclaimed"
                     } else {
                         "C17:at-most-once"
                     };
-                    out.spec.push((key.into(), format!("packet stream_offset={so} emitted {} times (frame #{i})", *n)));
+                    out.spec.push((key.into(), format!("packet stream_offset={so} emitted {n} times (frames #{prev} and #{i})")));
                 }
             }
+            if !single {
+                q_emits.entry(*so).or_default().push(i);
+            }
+        } else if honest && single && r.is_ok() {
+            out.spec.push(("C17:complete-not-emitted:single-frame".into(), format!("honest single-frame packet (frame #{i}) not emitted")));
         }
         if r.is_err() {
             out.spec.push(("C17:panic".into(), format!("recv panicked on frame #{i}")));
@@ -155,10 +201,65 @@ fn run_schedule(s: &Schedule, lean: &mut Option<&mut Lean>) -> Outcome {
             }
         }
     }
-    if s.clean {
-        for so in s.sent.keys() {
-            if emitted.get(so).copied().unwrap_or(0) == 0 {
-                out.spec.push(("C17:complete-not-emitted".into(), format!("all frames of packet stream_offset={so} delivered, never emitted")));
+    // liveness of every honest multi-frame packet whose slot cannot have been reclaimed (see module doc)
+    if honest && s.queues >= 1 {
+        // first/last index of a multi-frame frame per stream
+        let multi: Vec<(usize, u64)> = s.frames.iter().enumerate().filter(|(_, f)| !is_fast(f)).filter_map(|(i, f)| hd(f).map(|h| (i, h.0))).collect();
+        for (so, offs) in &s.sent_offs {
+            if offs.len() < 2 {
+                continue;
+            }
+            let want: HashSet<usize> = offs.iter().copied().collect();
+            let mut seen: HashSet<usize> = HashSet::new();
+            let (mut t0, mut t1) = (None, None);
+            let mut disturbed = false;
+            for (k, fo, _) in fed.get(so).map(|v| v.as_slice()).unwrap_or(&[]) {
+                if t0.is_none() {
+                    t0 = Some(*k);
+                }
+                if !seen.insert(*fo) {
+                    disturbed = true;
+                }
+                if seen.is_superset(&want) {
+                    t1 = Some(*k);
+                    break;
+                }
+            }
+            let (Some(t0), Some(t1)) = (t0, t1) else { continue };
+            let mut holders: HashSet<u64> = HashSet::new();
+            for (k, x) in &multi {
+                if *k > t1 || x == so {
+                    continue;
+                }
+                if *k > t0 {
+                    disturbed = true;
+                }
+                holders.insert(*x);
+            }
+            let competing = holders
+                .iter()
+                .filter(|x| {
+                    // retired: emitted from a queue before t0 and no multi-frame frame of it fed since (up to t1)
+                    let e = q_emits.get(x).and_then(|v| v.iter().copied().filter(|e| *e < t0).max());
+                    !e.map_or(false, |e| !multi.iter().any(|(k, y)| y == *x && *k > e && *k <= t1))
+                })
+                .count();
+            if competing + 1 > s.queues {
+                continue;
+            }
+            out.liveness_claims += 1;
+            if disturbed {
+                out.liveness_claims_disturbed += 1;
+            }
+            if !q_emits.get(so).map_or(false, |v| v.contains(&t1)) {
+                let key = if *so == u64::MAX { "C17:complete-not-emitted:stream-offset-u64-max" } else { "C17:complete-not-emitted" };
+                out.spec.push((
+                    key.into(),
+                    format!(
+                        "packet stream_offset={so}: first frame #{t0}, all {} frames delivered by frame #{t1}, at most {competing} other packets can hold one of the {} slots, but it was not emitted at frame #{t1} (result there: {})",
+                        want.len(), s.queues, out.labels[t1]
+                    ),
+                ));
             }
         }
     }
@@ -176,18 +277,49 @@ fn mtu_interesting(rng: &mut Rng) -> usize {
     if rng.chance(2, 3) { *rng.pick(&c) } else { rng.range(MIN_MTU as u64, MAX_MTU as u64) as usize }
 }
 
+/// stream offsets an honest sender reaches only after sending that many bytes (set through the
+/// `verif_set_stream_offset` hook): around the u64 wrap, where `wrapping_add` matters and where the
+/// never-used sentinel `u64::MAX` of the reassembly queues lives
+fn start_offset(rng: &mut Rng) -> u64 {
+    match rng.below(8) {
+        0 => u64::MAX,
+        1 => u64::MAX - 1,
+        2 => u64::MAX - rng.below(600),
+        3 => u64::MAX - rng.below(70_000),
+        4 => u64::MAX - 65_535 - rng.below(70_000),
+        5 => 1u64 << 63,
+        6 => (1u64 << 32) - 1 - rng.below(300),
+        _ => rng.next(),
+    }
+}
+
 /// honest schedule; also checks the Fragmenter against the model (`fsend`) and its own spec
 fn gen_honest(rng: &mut Rng, rep: &mut Report, lean: &mut Lean) -> Schedule {
-    let queues = rng.range(1, 5) as usize;
-    let npk = rng.range(1, (queues + 3) as u64) as usize;
+    let queues = *rng.pick(&[1usize, 1, 2, 2, 2, 3, 3, 4, 5, 6, 9, 0]);
+    // 0..3: windows of ≤ Q packets (in order / reversed / shuffled / shuffled + duplicates + loss);
+    // 4, 5: overload – Q+1 or Q+2 multi-frame packets in flight at once, frames interleaved round-robin
+    // (4) or shuffled with duplicates (5): eviction must choose among several busy queues
+    let mode = rng.below(6);
+    let overload = mode >= 4;
+    let npk = if overload { queues + 1 + rng.below(3) as usize } else { rng.range(1, (queues + 3) as u64) as usize };
     let mtu0 = mtu_interesting(rng);
     let mut fr = Fragmenter::new_unobserved(mtu0);
     let lm = lean.ask(&format!("fnew {mtu0}"));
     if lean.differs(&lm, &format!("mtu {}", fr.mtu())) {
         rep.disagree("fragmenter-mtu", json!({"mtu": mtu0}), &format!("mtu {}", fr.mtu()), &lm);
     }
+    if rng.chance(1, 3) {
+        let so = start_offset(rng);
+        fr.verif_set_stream_offset(so);
+        let lm = lean.ask(&format!("fso {so}"));
+        if lean.differs(&lm, "ok") {
+            rep.disagree("fragmenter", json!({"set_stream_offset": so.to_string()}), "ok", &lm);
+        }
+        rep.hit(if so > u64::MAX - 70_000 { "honest start offset within 70000 of u64::MAX" } else { "honest start offset large" });
+    }
     let mut packets: Vec<(u64, Vec<Vec<u8>>)> = vec![];
     let mut sent = HashMap::new();
+    let mut sent_offs = HashMap::new();
     let big = rng.chance(1, 6);
     for _ in 0..npk {
         if rng.chance(1, 3) {
@@ -203,13 +335,40 @@ fn gen_honest(rng: &mut Rng, rep: &mut Report, lean: &mut Lean) -> Schedule {
         if !big && size > 6 * p {
             size = size % (6 * p) + 1;
         }
+        if overload && size <= p {
+            size = (p + 1 + rng.below(2 * p as u64) as usize).min(MAX_PACKET_SIZE);
+        }
+        // oversize packets are rejected by both (and do not advance the stream offset)
+        if rng.chance(1, 12) {
+            let over = *rng.pick(&[MAX_PACKET_SIZE + 1, MAX_PACKET_SIZE + 2, 70_000, 2 * MAX_PACKET_SIZE + 1]);
+            let mut n = 0usize;
+            let r = catch(|| fr.send(&vec![0u8; over], |_| n += 1));
+            let lm = lean.ask(&format!("fsendlen {over}"));
+            let im = match &r {
+                Ok(Err(FragmenterSendError::PacketTooLarge)) if n == 0 => "err too_large".to_string(),
+                other => format!("{other:?} after {n} frames"),
+            };
+            rep.hit("oversize packet sent");
+            if im != "err too_large" {
+                rep.spec_fail("C17:fragmenter-accepts-oversize", &format!("Fragmenter::send on {over} bytes: {im}"), json!({"size": over}));
+            }
+            if lean.differs(&lm, &im) {
+                rep.disagree("fragmenter", json!({"oversize": over}), &im, &lm);
+            }
+        }
         let data = rng.bytes(size);
         let mut frames = vec![];
         let r = catch(|| fr.send(&data, |f| frames.push(f.to_vec())));
         let so = match r {
             Ok(Ok(so)) => so,
-            other => {
-                rep.spec_fail("C17:fragmenter-rejects", &format!("Fragmenter::send failed on {} bytes: {:?}", size, other.map(|x| x.err())), json!({"size": size}));
+            Err(m) => {
+                rep.spec_fail("C17:panic", &format!("Fragmenter::send panicked on {size} bytes: {m}"), json!({"size": size, "mtu": fr.mtu()}));
+                lean.ask(&format!("fsend {}", hex(&data)));
+                continue;
+            }
+            Ok(Err(e)) => {
+                rep.spec_fail("C17:fragmenter-rejects", &format!("Fragmenter::send failed on {size} bytes: {e:?}"), json!({"size": size}));
+                lean.ask(&format!("fsend {}", hex(&data)));
                 continue;
             }
         };
@@ -217,26 +376,39 @@ fn gen_honest(rng: &mut Rng, rep: &mut Report, lean: &mut Lean) -> Schedule {
         let lm = lean.ask(&format!("fsend {}", hex(&data)));
         let im = format!("frames {so} {}{}", frames.len(), frames.iter().map(|f| format!(" {}", hex(f))).collect::<String>());
         if lean.differs(&lm, &im) {
-            rep.disagree("fragmenter", json!({"mtu": fr.mtu(), "size": size}), &im[..im.len().min(120)], &lm[..lm.len().min(120)]);
+            rep.disagree("fragmenter", json!({"mtu": fr.mtu(), "size": size, "stream_offset": so.to_string()}), &im[..im.len().min(120)], &lm[..lm.len().min(120)]);
         }
-        // fragmenter spec: ≤ MAX_FRAMES frames, each ≤ mtu, payloads concatenate to data, offsets = prefix sums
+        // fragmenter spec: ≤ MAX_FRAMES frames, each ≤ mtu, payloads concatenate to data, offsets = prefix sums,
+        // every frame carries the packet's stream offset; stream offsets advance by the packet length (mod 2^64)
         let mut cat = vec![];
         for (k, f) in frames.iter().enumerate() {
-            let fo = u16::from_be_bytes(f[8..10].try_into().unwrap()) as usize;
-            let last = f[10] & 0x80 != 0;
-            if fo != cat.len() || last != (k == frames.len() - 1) || f.len() > fr.mtu() {
-                rep.spec_fail("C17:fragmenter-shape", "frame offset / LAST flag / size wrong", json!({"mtu": fr.mtu(), "size": size, "frame": k}));
+            let (fso, fo, last) = hd(f).unwrap();
+            if fso != so || fo != cat.len() || last != (k == frames.len() - 1) || f.len() > fr.mtu() {
+                rep.spec_fail("C17:fragmenter-shape", "stream offset / frame offset / LAST flag / size wrong", json!({"mtu": fr.mtu(), "size": size, "frame": k}));
             }
             cat.extend_from_slice(&f[HDR..]);
         }
         if cat != data || frames.len() > 256 {
             rep.spec_fail("C17:fragmenter-shape", "payloads do not concatenate to the packet or too many frames", json!({"mtu": fr.mtu(), "size": size}));
         }
+        if let Some((pso, pf)) = packets.last() {
+            let plen: usize = pf.iter().map(|f| f.len() - HDR).sum();
+            if so != pso.wrapping_add(plen as u64) {
+                rep.spec_fail("C17:fragmenter-shape", "stream offset did not advance by the previous packet's length (mod 2^64)", json!({"prev": pso.to_string(), "len": plen, "next": so.to_string()}));
+            }
+            if so < *pso {
+                rep.hit("honest stream offset wrapped around u64");
+            }
+        }
+        if so == u64::MAX {
+            rep.hit("honest packet at stream offset u64::MAX");
+        }
         rep.hit(&format!("honest frames/packet {}", match frames.len() { 1 => "1", 2 => "2", 3..=8 => "3-8", _ => "9+" }));
         sent.insert(so, data);
+        sent_offs.insert(so, frames.iter().map(|f| hd(f).unwrap().1).collect::<Vec<_>>());
         packets.push((so, frames));
     }
-    // empty / oversize packets are rejected by both
+    // empty packets are rejected by both
     if rng.chance(1, 10) {
         let r = fr.send(&[], |_| {});
         let lm = lean.ask("fsend -");
@@ -244,48 +416,128 @@ fn gen_honest(rng: &mut Rng, rep: &mut Report, lean: &mut Lean) -> Schedule {
             rep.disagree("fragmenter", json!("empty packet"), &format!("{r:?}"), &lm);
         }
     }
-    // schedule: windows of ≤ queues packets in flight; inside a window frames are shuffled and duplicated
-    let mode = rng.below(4); // 0 in order, 1 reverse, 2 shuffle window, 3 shuffle + dups + maybe drop
     let mut frames: Vec<Vec<u8>> = vec![];
-    let mut clean = true;
-    for win in packets.chunks(queues) {
+    let wsize = if overload { packets.len().max(1) } else { queues.max(1) };
+    for win in packets.chunks(wsize) {
         let mut w: Vec<Vec<u8>> = vec![];
-        for (_, fs) in win {
-            let mut fs = fs.clone();
-            if mode == 1 {
-                fs.reverse();
+        if mode == 4 {
+            // round-robin: frame k of every packet of the window, then frame k+1, …
+            let longest = win.iter().map(|(_, fs)| fs.len()).max().unwrap_or(0);
+            for k in 0..longest {
+                for (_, fs) in win {
+                    if let Some(f) = fs.get(k) {
+                        w.push(f.clone());
+                    }
+                }
             }
-            if mode == 3 && fs.len() > 1 && rng.chance(1, 8) {
-                let k = rng.below(fs.len() as u64) as usize;
-                fs.remove(k); // lose one frame of this packet
-                clean = false;
+        } else {
+            for (_, fs) in win {
+                let mut fs = fs.clone();
+                if mode == 1 {
+                    fs.reverse();
+                }
+                if mode == 3 && fs.len() > 1 && rng.chance(1, 8) {
+                    let k = rng.below(fs.len() as u64) as usize;
+                    fs.remove(k); // lose one frame of this packet
+                }
+                w.extend(fs);
             }
-            w.extend(fs);
         }
-        if mode >= 2 {
+        if mode == 2 || mode == 3 || mode == 5 {
             rng.shuffle(&mut w);
         }
-        if mode == 3 {
-            // duplicate some multi-frame frames (single-frame duplicates are covered by the corpus case)
+        if mode == 3 || mode == 5 {
+            // the network duplicates some frames (single-frame packets included)
             let n = w.len();
             for k in 0..n {
-                let single = w[k][10] & 0x80 != 0 && w[k][8] == 0 && w[k][9] == 0;
-                if !single && rng.chance(1, 4) {
+                if rng.chance(1, 4) {
                     let pos = rng.range(0, w.len() as u64) as usize;
                     let dup = w[k].clone();
                     w.insert(pos, dup);
-                    // a duplicate arriving after completion + slot reuse can occupy a slot: not "clean"
-                    clean = false;
                 }
             }
         }
         frames.extend(w);
     }
-    Schedule { kind: "honest", queues, frames, sent, clean }
+    let kind = match mode { 0 => "honest in-order", 1 => "honest reversed", 2 => "honest shuffled", 3 => "honest shuffled+dup+loss", 4 => "honest overload round-robin", _ => "honest overload shuffled+dup" };
+    Schedule { kind, queues, frames, sent, sent_offs }
+}
+
+/// next permutation of a sequence with repeated elements (lexicographic); false when it was the last one
+fn next_perm(v: &mut [usize]) -> bool {
+    if v.len() < 2 {
+        return false;
+    }
+    let mut i = v.len() - 1;
+    while i > 0 && v[i - 1] >= v[i] {
+        i -= 1;
+    }
+    if i == 0 {
+        return false;
+    }
+    let mut j = v.len() - 1;
+    while v[j] <= v[i - 1] {
+        j -= 1;
+    }
+    v.swap(i - 1, j);
+    v[i..].reverse();
+    true
+}
+
+/// exhaustive delivery schedules of small honest packets (real Fragmenter output at the minimum MTU):
+/// every permutation of the frames of `frames_per_packet` packets, every permutation with one frame
+/// duplicated, every permutation with one frame lost – for every queue count in `queues`
+fn gen_exhaustive(rng: &mut Rng, frames_per_packet: &[usize], queues: &[usize], with_dup_drop: bool, out: &mut Vec<Schedule>) {
+    let mut fr = Fragmenter::new_unobserved(MIN_MTU);
+    if rng.chance(1, 2) {
+        fr.verif_set_stream_offset(u64::MAX - rng.below(400));
+    }
+    let p = MIN_MTU - HDR;
+    let mut all: Vec<Vec<u8>> = vec![];
+    let mut sent = HashMap::new();
+    let mut sent_offs = HashMap::new();
+    for n in frames_per_packet {
+        let size = (n - 1) * p + rng.range(1, p as u64) as usize;
+        let data = rng.bytes(size);
+        let mut frames = vec![];
+        let so = fr.send(&data, |f| frames.push(f.to_vec())).expect("send");
+        assert_eq!(frames.len(), *n);
+        sent.insert(so, data);
+        sent_offs.insert(so, frames.iter().map(|f| hd(f).unwrap().1).collect::<Vec<_>>());
+        all.extend(frames);
+    }
+    let n = all.len();
+    let mut multisets: Vec<Vec<usize>> = vec![(0..n).collect()];
+    if with_dup_drop {
+        for k in 0..n {
+            let mut d: Vec<usize> = (0..n).collect();
+            d.push(k);
+            d.sort();
+            multisets.push(d);
+            multisets.push((0..n).filter(|x| *x != k).collect());
+        }
+    }
+    for q in queues {
+        for ms in &multisets {
+            let mut perm = ms.clone();
+            loop {
+                out.push(Schedule {
+                    kind: "exhaustive",
+                    queues: *q,
+                    frames: perm.iter().map(|k| all[*k].clone()).collect(),
+                    sent: sent.clone(),
+                    sent_offs: sent_offs.clone(),
+                });
+                if !next_perm(&mut perm) {
+                    break;
+                }
+            }
+        }
+    }
 }
 
 fn gen_hostile(rng: &mut Rng) -> Schedule {
-    let queues = rng.range(1, 4) as usize;
+    let queues = *rng.pick(&[1usize, 1, 2, 2, 3, 4, 0, 7]);
     let n = rng.range(2, 14) as usize;
     let windows = [MIN_PAYLOAD_SIZE, MIN_PAYLOAD_SIZE + 1, 300, 512, 1000, 8984, MIN_PAYLOAD_SIZE - 1];
     let w = *rng.pick(&windows);
@@ -352,7 +604,7 @@ fn gen_hostile(rng: &mut Rng) -> Schedule {
         pre.extend(frames);
         frames = pre;
     }
-    Schedule { kind: "hostile", queues, frames, sent: HashMap::new(), clean: false }
+    Schedule { kind: "hostile", queues, frames, sent: HashMap::new(), sent_offs: HashMap::new() }
 }
 
 /// "count matches, coverage does not": `a` regular frames chosen from a pool that includes indices at and beyond
@@ -396,35 +648,57 @@ fn gen_count_match(rng: &mut Rng) -> Schedule {
         f[0..8].copy_from_slice(&500_000u64.to_be_bytes());
     }
     pre.extend(frames);
-    Schedule { kind: "count-match", queues, frames: pre, sent: HashMap::new(), clean: false }
+    Schedule { kind: "count-match", queues, frames: pre, sent: HashMap::new(), sent_offs: HashMap::new() }
 }
 
-/// corpus line: `<queues> <hexframe> <hexframe> …`
+/// corpus line: `[honest] <queues> <hexframe> <hexframe> …`.  With the `honest` prefix the frames are copies of
+/// real Fragmenter output: the packets sent are reconstructed from them so that the honest-sender oracles apply.
 fn parse_corpus_line(l: &str) -> Option<Schedule> {
-    let mut it = l.split_whitespace();
+    let mut it = l.split_whitespace().peekable();
+    let honest = it.peek() == Some(&"honest");
+    if honest {
+        it.next();
+    }
     let queues = it.next()?.parse().ok()?;
-    let frames: Option<Vec<Vec<u8>>> = it.map(unhex).collect();
-    Some(Schedule { kind: "corpus", queues, frames: frames?, sent: HashMap::new(), clean: false })
+    let frames: Vec<Vec<u8>> = it.map(unhex).collect::<Option<Vec<_>>>()?;
+    let mut sent = HashMap::new();
+    let mut sent_offs = HashMap::new();
+    if honest {
+        let mut by: HashMap<u64, Vec<(usize, &[u8])>> = HashMap::new();
+        for f in &frames {
+            let (so, fo, _) = hd(f)?;
+            let e = by.entry(so).or_default();
+            if !e.iter().any(|(o, _)| *o == fo) {
+                e.push((fo, &f[HDR..]));
+            }
+        }
+        for (so, mut v) in by {
+            v.sort();
+            sent.insert(so, v.iter().flat_map(|(_, p)| p.iter().copied()).collect::<Vec<u8>>());
+            sent_offs.insert(so, v.iter().map(|(o, _)| *o).collect::<Vec<_>>());
+        }
+    }
+    Some(Schedule { kind: if honest { "corpus honest" } else { "corpus" }, queues, frames, sent, sent_offs })
 }
 
 fn sched_json(s: &Schedule) -> serde_json::Value {
     json!({"kind": s.kind, "queues": s.queues, "frames": s.frames.iter().map(|f| {
-        if f.len() >= HDR {
-            json!({"stream": u64::from_be_bytes(f[0..8].try_into().unwrap()).to_string(),
-                   "frame_offset": u16::from_be_bytes(f[8..10].try_into().unwrap()),
-                   "last": f[10] & 0x80 != 0, "len": f.len() - HDR})
-        } else { json!({"short": f.len()}) }
+        match hd(f) {
+            Some((so, fo, last)) => json!({"stream": so.to_string(), "frame_offset": fo, "last": last, "len": f.len() - HDR}),
+            None => json!({"short": f.len()}),
+        }
     }).collect::<Vec<_>>()})
 }
 
+/// replayable form (a shrunk honest schedule keeps all frames of the packets the failure is about only if
+/// they are needed; the reconstruction in `parse_corpus_line` is from the frames that are left)
 fn sched_line(s: &Schedule) -> String {
-    format!("{} {}", s.queues, s.frames.iter().map(|f| hex(f)).collect::<Vec<_>>().join(" "))
+    format!("{}{} {}", if s.sent.is_empty() { "" } else { "honest " }, s.queues, s.frames.iter().map(|f| hex(f)).collect::<Vec<_>>().join(" "))
 }
 
 /// delta-debugging over the frame list
 fn shrink(s: &Schedule, lean: &mut Lean, fails: &dyn Fn(&Outcome) -> bool) -> Schedule {
     let mut cur = s.clone();
-    cur.clean = false;
     let mut chunk = (cur.frames.len() / 2).max(1);
     let mut budget = 200;
     while budget > 0 {
@@ -459,10 +733,12 @@ fn main() {
     let mut rep = Report::new(
         "C17",
         "case = schedule (queue count + frame sequence) fed to the real Defragmenter and to the Lean model; \
-         honest schedules come from the real Fragmenter (boundary-directed sizes/MTUs, shuffled, duplicated, \
-         interleaved, lossy), hostile schedules are boundary-directed arbitrary frames. Non-trivial = at least one \
-         packet emitted from a reassembly queue or at least one error other than invalid_header; distinct by \
-         hash of (queues, frame headers, lengths)",
+         honest schedules come from the real Fragmenter (boundary-directed sizes/MTUs/stream offsets incl. the u64 \
+         wrap, windows of <= Q packets in order/reversed/shuffled/duplicated/lossy, and overload with Q+1..Q+3 \
+         packets in flight), exhaustive schedules are all permutations (plus one duplicate / one loss) of the \
+         frames of 2-3 small honest packets, hostile schedules are boundary-directed arbitrary frames. \
+         Non-trivial = at least one packet emitted from a reassembly queue or at least one error other than \
+         invalid_header; distinct by hash of (queues, frame headers, lengths)",
     );
     let mut schedules: Vec<Schedule> = vec![];
     for l in read_corpus(&args.corpus) {
@@ -473,11 +749,11 @@ fn main() {
     }
     let n_corpus = schedules.len();
     if let Some(p) = &args.replay {
-        // replay file: a corpus-format line
+        // replay file: corpus-format lines
         let txt = std::fs::read_to_string(p).expect("replay file");
         schedules = txt.lines().filter_map(parse_corpus_line).collect();
     } else {
-        let n = args.scale(1200, 40000);
+        let n = args.scale(800, 40000);
         for i in 0..n {
             if i % 2 == 0 {
                 let s = gen_honest(&mut rng, &mut rep, &mut lean);
@@ -488,17 +764,52 @@ fn main() {
                 schedules.push(gen_hostile(&mut rng));
             }
         }
+        // exhaustive small schedules: 2 packets x 2 frames on 1 and 2 queues (permutations, one duplicate, one loss);
+        // 3 packets x 2 frames on 2 queues = Q+1 packets in flight (permutations)
+        gen_exhaustive(&mut rng, &[2, 2], &[1, 2], true, &mut schedules);
+        gen_exhaustive(&mut rng, &[2, 2, 2], &[2], false, &mut schedules);
+        if args.thorough() {
+            gen_exhaustive(&mut rng, &[3, 2], &[1, 2, 3], true, &mut schedules);
+            gen_exhaustive(&mut rng, &[2, 2, 2], &[1, 3], false, &mut schedules);
+            gen_exhaustive(&mut rng, &[2, 2, 2], &[2], true, &mut schedules);
+            gen_exhaustive(&mut rng, &[3, 3], &[1, 2], true, &mut schedules);
+            gen_exhaustive(&mut rng, &[2, 2, 2, 2], &[3], false, &mut schedules);
+        }
     }
-    // deterministic probe: a network-duplicated single-frame packet (honest sender)
+    // deterministic probes (honest sender, real Fragmenter output)
     if args.replay.is_none() {
+        let mk = |fr: &mut Fragmenter, rng: &mut Rng, size: usize| {
+            let data = rng.bytes(size);
+            let mut frames = vec![];
+            let so = fr.send(&data, |f| frames.push(f.to_vec())).unwrap();
+            (so, data, frames)
+        };
+        let sched = |kind: &'static str, queues: usize, pk: &[&(u64, Vec<u8>, Vec<Vec<u8>>)], order: &[(usize, usize)]| {
+            let mut sent = HashMap::new();
+            let mut sent_offs = HashMap::new();
+            for (so, data, frames) in pk.iter().map(|x| (&x.0, &x.1, &x.2)) {
+                sent.insert(*so, data.clone());
+                sent_offs.insert(*so, frames.iter().map(|f| hd(f).unwrap().1).collect::<Vec<_>>());
+            }
+            Schedule { kind, queues, frames: order.iter().map(|(a, b)| pk[*a].2[*b].clone()).collect(), sent, sent_offs }
+        };
+        // a network-duplicated single-frame packet
         let mut fr = Fragmenter::new_unobserved(1500);
-        let data = rng.bytes(100);
-        let mut frames = vec![];
-        let so = fr.send(&data, |f| frames.push(f.to_vec())).unwrap();
-        let mut sent = HashMap::new();
-        sent.insert(so, data);
-        let f0 = frames[0].clone();
-        schedules.push(Schedule { kind: "probe-single-dup", queues: 2, frames: vec![f0.clone(), f0], sent, clean: false });
+        let a = mk(&mut fr, &mut rng, 100);
+        schedules.push(sched("probe-single-dup", 2, &[&a], &[(0, 0), (0, 0)]));
+        // a network-duplicated 2-frame packet whose slot is reclaimed by another packet before the copies arrive
+        let mut fr = Fragmenter::new_unobserved(MIN_MTU);
+        let a = mk(&mut fr, &mut rng, 300);
+        let b = mk(&mut fr, &mut rng, 300);
+        schedules.push(sched("probe-whole-dup", 1, &[&a, &b], &[(0, 0), (0, 1), (1, 0), (0, 0), (0, 1)]));
+        // the same copies without any other packet in between must NOT be emitted again
+        schedules.push(sched("probe-whole-dup-same-slot", 2, &[&a], &[(0, 0), (0, 1), (0, 1), (0, 0), (0, 0), (0, 1)]));
+        // a 2-frame packet that starts at stream offset u64::MAX (the never-used sentinel of the queues), alone
+        let mut fr = Fragmenter::new_unobserved(MIN_MTU);
+        fr.verif_set_stream_offset(u64::MAX);
+        let a = mk(&mut fr, &mut rng, 300);
+        let b = mk(&mut fr, &mut rng, 300);
+        schedules.push(sched("probe-offset-u64-max", 2, &[&a, &b], &[(0, 0), (0, 1), (1, 1), (1, 0)]));
     }
     rep.hit_n("corpus schedules", n_corpus as u64);
     for s in &schedules {
@@ -508,11 +819,20 @@ fn main() {
         rep.case(&canon, nontrivial);
         rep.traces += 1;
         rep.hit(&format!("schedule {}", s.kind));
+        rep.hit(&format!("queues {}", match s.queues { 0 => "0", 1 => "1", 2 => "2", 3..=5 => "3-5", _ => "6+" }));
         rep.hit_n("frames fed", s.frames.len() as u64);
         for l in &o.labels {
             rep.hit(&format!("out {l}"));
         }
         rep.hit_n("packets emitted from a queue", o.emitted_from_queue as u64);
+        rep.hit_n("liveness demanded (slot provably not reclaimed)", o.liveness_claims as u64);
+        rep.hit_n("liveness demanded despite duplicates/interleaving before completion", o.liveness_claims_disturbed as u64);
+        if !s.sent.is_empty() {
+            let multi: HashSet<u64> = s.frames.iter().filter(|f| !is_fast(f)).filter_map(|f| hd(f).map(|h| h.0)).collect();
+            if multi.len() > s.queues {
+                rep.hit("honest schedule with more multi-frame packets than queues");
+            }
+        }
         if rep.samples.len() < 4 && nontrivial && s.frames.len() <= 8 {
             rep.sample(json!({"schedule": sched_json(s), "outputs": o.labels}));
         }
@@ -529,9 +849,9 @@ fn main() {
             }
             let k = key.clone();
             let small = shrink(s, &mut lean, &|o: &Outcome| o.spec.iter().any(|(kk, _)| *kk == k));
-            let mut small = small;
-            small.sent = s.sent.clone();
-            rep.spec_fail(key, what, json!({"schedule": sched_json(&small), "line": sched_line(&small)}));
+            let o2 = run_schedule(&small, &mut Some(&mut lean));
+            let what2 = o2.spec.iter().find(|(kk, _)| *kk == k).map(|(_, w)| w.clone()).unwrap_or(what.clone());
+            rep.spec_fail(key, &what2, json!({"schedule": sched_json(&small), "line": sched_line(&small)}));
         }
     }
     if rep.samples.is_empty() {
